@@ -146,7 +146,7 @@ class Ctx:
             raise Infra("specification %s violates its own invariants:\n%s" % (cfg, r["out"][-3000:]))
         return r
 
-    def validate_trace(self, module, trace, shards=1, timeout=1500, cfg=None, env=None):
+    def validate_trace(self, module, trace, shards=1, timeout=1500, cfg=None, env=None, boundary=None):
         """Run a *Trace.tla specification over an ndjson trace, possibly in shards.
         The spec writes its result record with JsonSerialize(IOEnv.RESULT, ..).
         Returns list of (shard_path, result) with event indices local to shard."""
@@ -157,8 +157,16 @@ class Ctx:
         shards = max(1, min(shards, len(lines) // 200 or 1))
         per = (len(lines) + shards - 1) // shards
         jobs = []
+        cuts = [0]
+        for s in range(1, shards):
+            c = max(s * per, cuts[-1])
+            if boundary:   # only cut where a new trace starts
+                while c < len(lines) and boundary not in lines[c]:
+                    c += 1
+            cuts.append(min(c, len(lines)))
+        cuts.append(len(lines))
         for s in range(shards):
-            chunk = lines[s * per:(s + 1) * per]
+            chunk = lines[cuts[s]:cuts[s + 1]]
             if not chunk:
                 continue
             sp = "%s.s%d" % (trace, s)
